@@ -151,7 +151,7 @@ pub mod indirection {
     }
 
     pub fn return_type(var_type: Type) -> Type {
-        var_type.mut_element_type().unwrap()
+        var_type.mut_element_type().unwrap_or(Type::Never)
     }
 }
 
